@@ -5,22 +5,6 @@ open Tok C14
 
 /-! ## well-formedness of the graph for the text format (decidable given `fold`) -/
 
-def typeAt (g : TGraph) (j : Nat) : Str := ((g.elems[j]?).map (·.type)).getD []
-
-def valWf (T : Tables) (fold : Str → Str) (g : TGraph) (flat : Bool) (t : VT) : TVal → Bool
-  | .text _ => t != .element
-  | .ref .null => t == .element
-  | .ref (.stub u) => t == .element && uuidOK u
-  | .ref (.idx j) => t == .element && decide (j < g.elems.length) &&
-      (isRoot g flat j || inlineTypeOK T fold (typeAt g j))
-
-/-- every UUID is UUID text, no attribute is spelled `name`, a scalar has one value, values have
-the kind their attribute type says, references are in range, and an element written inline has a
-type the reader does not take for a value type. -/
-def graphWf (T : Tables) (fold : Str → Str) (g : TGraph) (flat : Bool) : Bool :=
-  g.elems.all fun e => uuidOK e.uuid && e.attrs.all fun a =>
-    a.name != nameLit && (a.isArray || a.vals.length == 1) && a.vals.all (valWf T fold g flat a.type)
-
 theorem graphWf_lexWf {T : Tables} {fold : Str → Str} {g : TGraph} {flat : Bool}
     (h : graphWf T fold g flat = true) : lexWf g = true := by
   simp only [graphWf, List.all_eq_true, Bool.and_eq_true] at h
@@ -184,10 +168,6 @@ theorem parseTop_forest (T : Tables) (fold : Str → Str) (N : NameFacts T fold)
     simp
 
 /-! ## the whole file -/
-
-/-- the elements written at the top level, in file order. -/
-def roots (g : TGraph) (flat : Bool) : List Nat :=
-  (List.range g.elems.length).filter (isRoot g flat)
 
 /-- the forest the text denotes. -/
 def forest (g : TGraph) (flat cull : Bool) : List PElem :=
